@@ -219,6 +219,17 @@ def run_case(case):
                     if not ok:
                         viol.add('arbitration_order', 'CA with NAME %016X against contender %016X (differ in bit %d, own is %s): state %r, frames %s'
                                  % (mine, other, bit, 'lower' if mine < other else 'higher', ca.state, [f.brief() for f in sent]), how=how, **tag)
+                    elif mine < other and (mine & ~RES) > 0:
+                        # history: the same CA, having just defended its address against a higher NAME, is now challenged (from the same source
+                        # address) by a NAME one below its own: every contest is decided by the NAME in the claim at hand
+                        third = mine - 1 if ((mine - 1) & RES) == 0 else mine - 1 - RES
+                        n1 = len(W.bus.frames)
+                        node.on_frame(Frame(-1, W.sim.now, 'X', C.make_id(6, 0, C.PF_ADDRESS_CLAIM, 255, addr), C.name_bytes(third)))
+                        obs['arbitration_contests'] += 1
+                        lost = (ca.state == ST.WAIT_VETO) if aac else (ca.state == ST.CANNOT_CLAIM)
+                        if not lost:
+                            viol.add('arbitration_order', 'CA with NAME %016X defended against %016X and then kept its address against the lower NAME %016X: state %r, frames %s'
+                                     % (mine, other, third, ca.state, [f.brief() for f in W.bus.frames[n1:]]), how='history', **tag)
                     node.ecu.remove_ca(addr)
         W.close()
     sig = repr(sorted((k, v) for k, v in case.items() if k not in ('id',)))
